@@ -60,6 +60,11 @@ type verifC38Logger struct {
 	ids    map[string]int
 	events []string
 	sigs   []string
+	// watcher errors injected / provoked (X<t>), closed channel seen by the consumer (C<t>,<content>)
+	errs           []string
+	closedAt       string
+	lastAfterClose *int
+	flood          bool
 }
 
 func (l *verifC38Logger) id(p string) int {
@@ -93,6 +98,11 @@ func verifC38Content(b []byte, err error) int {
 }
 
 func verifC38RunOnce(layout string, steps []verifC38Step) (string, bool) {
+	for _, st := range steps {
+		if _, ok := verifutil.Funcs["c38_inner"].(func(*ConfWatcher) *fsnotify.Watcher); st.op == "o" && !ok {
+			return "no seam to the inner watcher: overflow cannot be injected", false
+		}
+	}
 	dir, err := os.MkdirTemp("", "verifc38")
 	if err != nil {
 		panic(err)
@@ -164,7 +174,9 @@ func verifC38RunOnce(layout string, steps []verifC38Step) (string, bool) {
 					wc = 1
 				}
 				lg.mu.Lock()
-				lg.events = append(lg.events, fmt.Sprintf("E%d,%d,%d,%d", ms(), lg.id(cur), isCur, wc))
+				if !lg.flood || isCur == 1 {
+					lg.events = append(lg.events, fmt.Sprintf("E%d,%d,%d,%d", ms(), lg.id(cur), isCur, wc))
+				}
 				lg.mu.Unlock()
 			case <-second.Errors:
 			case <-stop:
@@ -178,7 +190,25 @@ func verifC38RunOnce(layout string, steps []verifC38Step) (string, bool) {
 			select {
 			case _, ok := <-w.Watch():
 				if !ok {
-					return
+					// The loop has left (watcher error) and closed the channel.  Core.run's
+					// `case <-confChanged:` fires on a closed channel too — again and again — so the
+					// consumer keeps loading the file: emulate that at a gentle pace.
+					lg.mu.Lock()
+					lg.closedAt = fmt.Sprintf("C%d,%d", ms(), verifC38Content(os.ReadFile(conf)))
+					lg.mu.Unlock()
+					for {
+						select {
+						case <-time.After(50 * time.Millisecond):
+							c := verifC38Content(os.ReadFile(conf))
+							lg.mu.Lock()
+							lg.lastAfterClose = &c
+							lg.mu.Unlock()
+						case <-quit:
+							return
+						case <-stop:
+							return
+						}
+					}
 				}
 				t := ms()
 				c := verifC38Content(os.ReadFile(conf))
@@ -259,6 +289,56 @@ func verifC38RunOnce(layout string, steps []verifC38Step) (string, bool) {
 			realPath = filepath.Join(dir, d, "conf.yml")
 		case "x":
 			os.WriteFile(filepath.Join(dir, "unrelated.txt"), content, 0o644) //nolint:errcheck
+		case "o":
+			// inotify queue overflow, deterministically: the kernel drops the event of this in-place
+			// write (the watch is detached while it happens) and reports IN_Q_OVERFLOW, which fsnotify
+			// delivers as ErrEventOverflow on the Errors channel
+			iw := verifutil.Funcs["c38_inner"].(func(*ConfWatcher) *fsnotify.Watcher)(w)
+			iw.Remove(dir)                     //nolint:errcheck
+			os.WriteFile(conf, content, 0o644) //nolint:errcheck
+			iw.Add(dir)                        //nolint:errcheck
+			select {
+			case iw.Errors <- fsnotify.ErrEventOverflow:
+			case <-time.After(2 * time.Second):
+			}
+			lg.mu.Lock()
+			lg.errs = append(lg.errs, fmt.Sprintf("X%d", ms()))
+			lg.mu.Unlock()
+		case "f":
+			// a real overflow: four writers on files next to the configuration produce events faster
+			// than the loop handles them (two EvalSymlinks per event) until the kernel queue
+			// (fs.inotify.max_queued_events) is full; the configuration is edited in place meanwhile
+			lg.mu.Lock()
+			lg.flood = true
+			lg.mu.Unlock()
+			fstop := make(chan struct{})
+			var fwg sync.WaitGroup
+			for g := 0; g < 2; g++ {
+				a, _ := os.Create(filepath.Join(dir, fmt.Sprintf("a%d.log", g)))
+				b, _ := os.Create(filepath.Join(dir, fmt.Sprintf("b%d.log", g)))
+				fwg.Add(1)
+				go func() {
+					defer fwg.Done()
+					defer a.Close()
+					defer b.Close()
+					for {
+						select {
+						case <-fstop:
+							return
+						default:
+						}
+						for k := 0; k < 256; k++ { // alternate, otherwise inotify merges identical events
+							a.WriteAt([]byte{'x'}, 0) //nolint:errcheck
+							b.WriteAt([]byte{'x'}, 0) //nolint:errcheck
+						}
+					}
+				}()
+			}
+			time.Sleep(500 * time.Millisecond)
+			os.WriteFile(conf, content, 0o644) //nolint:errcheck
+			time.Sleep(20 * time.Millisecond)
+			close(fstop)
+			fwg.Wait()
 		case "q":
 			if !quitted {
 				quitted = true
@@ -268,7 +348,7 @@ func verifC38RunOnce(layout string, steps []verifC38Step) (string, bool) {
 			panic("verif: bad step " + st.op)
 		}
 		done = append(done, fmt.Sprintf("P%d,%s", ms(), st.op))
-		if st.op != "q" {
+		if st.op != "q" && st.op != "f" {
 			doneAt = append(doneAt, ms())
 		}
 	}
@@ -280,6 +360,15 @@ func verifC38RunOnce(layout string, steps []verifC38Step) (string, bool) {
 	}
 
 	fin := verifC38Content(os.ReadFile(conf))
+
+	// the consumer goes away before the shutdown (as Core does): the channel being closed by Close()
+	// itself must not count as a wake-up
+	if !quitted {
+		quitted = true
+		close(quit)
+		quitted = false // (only for the q= column: the consumer was there until the end)
+	}
+	time.Sleep(5 * time.Millisecond)
 
 	// shutdown must complete whatever the loop is doing (it may be about to report a held-back change
 	// to a consumer that is gone)
@@ -321,6 +410,12 @@ func verifC38RunOnce(layout string, steps []verifC38Step) (string, bool) {
 		p := strings.Split(lg.sigs[len(lg.sigs)-1], ",")
 		lastLoaded = verifutil.Atoi(p[1])
 	}
+	if lg.closedAt != "" { // the consumer of a closed channel keeps loading
+		lastLoaded = verifutil.Atoi(strings.Split(lg.closedAt, ",")[1])
+		if lg.lastAfterClose != nil {
+			lastLoaded = *lg.lastAfterClose
+		}
+	}
 	if lastLoaded == fin {
 		loaded = 1
 	}
@@ -329,7 +424,17 @@ func verifC38RunOnce(layout string, steps []verifC38Step) (string, bool) {
 		q = 1
 	}
 	out := fmt.Sprintf("loaded=%d nsig=%d c0=%d fin=%d closed=%d q=%d", loaded, len(lg.sigs), c0, fin, closed, q)
-	for _, s := range [][]string{done, lg.events, lg.sigs} {
+	extra := append([]string{}, lg.errs...)
+	if lg.closedAt != "" {
+		extra = append(extra, lg.closedAt)
+	}
+	if lg.flood {
+		extra = append(extra, "F")
+		if len(lg.events) > 40 {
+			lg.events = lg.events[len(lg.events)-40:]
+		}
+	}
+	for _, s := range [][]string{done, lg.events, lg.sigs, extra} {
 		if len(s) > 0 {
 			out += " " + strings.Join(s, " ")
 		}
@@ -384,6 +489,20 @@ func verifC38GenOne(r *verifutil.Rand) string {
 		}
 		return fmt.Sprintf("scn %s %d:%s %d:q %d:%s", layout, t0, ch, tq, t1, ch)
 	}
+	if r.Chance(1, 8) {
+		// the kernel drops the event of the last in-place write and reports an overflow: the consumer
+		// must still end up with the final content (a watcher error wakes it)
+		layout := r.Pick("plain", "plain", "sym")
+		t0 := r.Intn(3) * 20
+		switch r.Intn(3) {
+		case 0:
+			return fmt.Sprintf("scn %s %d:o", layout, t0)
+		case 1:
+			return fmt.Sprintf("scn %s %d:w %d:o", layout, t0, t0+50+r.Intn(1400))
+		default:
+			return fmt.Sprintf("scn %s %d:w %d:o %d:x", layout, t0, t0+50+r.Intn(900), t0+1000+r.Intn(500))
+		}
+	}
 	layout := r.Pick("plain", "plain", "sym", "k8s")
 	n := 1 + r.Intn(4)
 	t := r.Intn(3) * 20
@@ -423,10 +542,15 @@ func verifC38Pregenerate(r *verifutil.Rand, n int) {
 	for i := 0; i < n; i++ {
 		verifC38Ops = append(verifC38Ops, verifC38GenOne(r.Fork()))
 	}
+	verifC38Prerun(verifC38Ops)
+}
+
+// run scenarios 16 at a time and keep their answers for Exec
+func verifC38Prerun(ops []string) {
 	sem := make(chan struct{}, verifC38Parallel)
 	var mu sync.Mutex
 	var wg sync.WaitGroup
-	for _, op := range verifC38Ops {
+	for k, op := range ops {
 		mu.Lock()
 		_, dup := verifC38Cache[op]
 		if !dup {
@@ -446,7 +570,7 @@ func verifC38Pregenerate(r *verifutil.Rand, n int) {
 			mu.Lock()
 			verifC38Cache[op] = a
 			mu.Unlock()
-		}(op, len(verifC38Cache))
+		}(op, k)
 	}
 	wg.Wait()
 }
@@ -464,6 +588,10 @@ func verifC38Gen(quick, thorough int) func(r *verifutil.Rand, i int, th bool) []
 			verifC38Pregenerate(r, n)
 		}
 		if i < len(verifC38Ops) {
+			if th && i%80 == 79 {
+				// thorough only, run on demand (not in the parallel batch): a real queue overflow
+				return []string{fmt.Sprintf("scn plain 0:w %d:f", 1100+r.Intn(300))}
+			}
 			return []string{verifC38Ops[i]}
 		}
 		return []string{verifC38GenOne(r)}
@@ -472,6 +600,20 @@ func verifC38Gen(quick, thorough int) func(r *verifutil.Rand, i int, th bool) []
 
 func TestVerifC38(t *testing.T) {
 	const quick, thorough = 64, 640
+	// the corpus scenarios are run first by verifutil, one by one: pre-run them in parallel as well
+	if cd := os.Getenv("VERIF_CORPUS"); cd != "" && os.Getenv("VERIF_REPLAY") == "" {
+		var ops []string
+		files, _ := filepath.Glob(filepath.Join(cd, "*.ops"))
+		for _, f := range files {
+			b, _ := os.ReadFile(f)
+			for _, l := range strings.Split(string(b), "\n") {
+				if l = strings.TrimSpace(l); strings.HasPrefix(l, "scn ") {
+					ops = append(ops, l)
+				}
+			}
+		}
+		verifC38Prerun(ops)
+	}
 	verifutil.Main(t, &verifutil.Harness{
 		ID: "C38", Exec: verifC38Exec, Gen: verifC38Gen(quick, thorough), Quick: quick, Thorough: thorough,
 		Class: func(op, impl string) string {
@@ -483,6 +625,8 @@ func TestVerifC38(t *testing.T) {
 			switch {
 			case strings.HasPrefix(impl, "skip"):
 				return k + "/skipped"
+			case strings.Contains(impl, " X"):
+				return k + "/overflow"
 			case strings.Contains(impl, " closed=0"):
 				return k + "/close-hangs"
 			case strings.Contains(impl, " q=1"):
